@@ -69,6 +69,8 @@ func main() {
 	child := fl.Bool("child", false, "internal: run a shard in this process")
 	from := fl.Int("from", 0, "internal: first history index of the shard")
 	to := fl.Int("to", -1, "internal: one past the last history index of the shard")
+	pipes := fl.String("pipes", "", "semicolon separated pipeline configurations to cycle through: compression+encryption+signature")
+	keyDir := fl.String("keys", "/verif/work/keys", "directory caching generated key pairs")
 	dump := fl.String("dump", "", "write the full transcript (implementation and model) of every history into this directory")
 	allCuts := fl.Bool("allcuts", false, "cut mode: every byte offset of small tapes instead of the boundary neighbourhood")
 	mode := fl.String("mode", "plain", "history shape: plain | ro (populate, reopen read-only, mixed calls) | reopen (reopen/rebuild in the middle)")
@@ -90,10 +92,16 @@ func main() {
 	case "fs":
 		o := fsOpts{seed: *seed, n: *n, length: *length, workers: *workers, driver: *driver, wild: *wild,
 			oracles: splitList(*oracles), rs: ints(*rss), scratch: scratch, replay: *replay, known: loadKnown(*knownPath), mode: *mode,
-			from: *from, to: *to, thoroughCuts: *allCuts, dump: *dump}
+			from: *from, to: *to, thoroughCuts: *allCuts, dump: *dump, pipes: splitSemi(*pipes), keyDir: *keyDir}
 		if *child {
 			res = runFS(o)
 		} else {
+			for _, p := range o.pipes {
+				if _, err := h.WithPipe(h.DefaultCfg(), p, o.keyDir); err != nil {
+					fmt.Fprintln(os.Stderr, "keys:", err)
+					os.Exit(2)
+				}
+			}
 			res = runFSParent(o, os.Args[2:])
 		}
 	default:
@@ -117,6 +125,13 @@ func main() {
 			os.Exit(4)
 		}
 	}
+}
+
+func splitSemi(s string) []string {
+	if s == "" {
+		return nil
+	}
+	return strings.Split(s, ";")
 }
 
 func splitList(s string) []string {
@@ -155,6 +170,8 @@ type fsOpts struct {
 	to      int
 	thoroughCuts bool
 	dump    string
+	pipes   []string
+	keyDir  string
 }
 
 func has(xs []string, x string) bool {
@@ -278,6 +295,16 @@ func runFS(o fsOpts) *result {
 				os.MkdirAll(dir, 0o755)
 				c := h.DefaultCfg()
 				c.RS = o.rs[j%len(o.rs)]
+				if len(o.pipes) > 0 {
+					var perr error
+					c, perr = h.WithPipe(c, o.pipes[(j/len(o.rs))%len(o.pipes)], o.keyDir)
+					if perr != nil {
+						mu.Lock()
+						res.Mismatches = append(res.Mismatches, h.Mismatch{Hist: id, Kind: "harness-error", Impl: []string{"keys: " + perr.Error()}})
+						mu.Unlock()
+						continue
+					}
+				}
 				g := h.NewGen(o.seed*1_000_003+int64(j), h.Profile{Wild: o.wild, Symlinks: o.wild, MaxContent: 1500})
 				gw := h.NewGen(o.seed*1_000_003+int64(j)+7, h.Profile{Wild: true, Symlinks: false, MaxContent: 600})
 				i := 0
@@ -524,21 +551,27 @@ func runFSParent(o fsOpts, args []string) *result {
 						calls = append(calls, l)
 					}
 				}
-				fired := driverTriggers(o.driver, pend)
+				fired, lastRes := driverTriggers(o.driver, pend)
+				predicted := lastRes == "res\tcrash"
 				mu.Lock()
 				total.Crashes++
 				for _, p := range o.oracles {
 					f := OracleFail{Property: p, Hist: fmt.Sprintf("%d-%d", o.seed, lastJ), Step: lastI,
 						What: "the process crashed (panic) while this call was running: " + firstLine(stderr.String()), Triggers: fired, Calls: calls}
-					f.Known = o.known.Explain(p, fired)
+					if predicted {
+						f.Known = o.known.ExplainCrash(fired)
+					}
 					if f.Known != "" {
 						total.KnownHits[f.Known]++
 					}
 					total.OracleFails = append(total.OracleFails, f)
 				}
-				if len(o.oracles) == 0 {
+				if !predicted {
+					// the model did not predict that this call kills the process: a disagreement
 					total.Mismatches = append(total.Mismatches, h.Mismatch{Hist: fmt.Sprintf("%d-%d", o.seed, lastJ), Step: lastI, Kind: "crash",
-						Impl: []string{firstLine(stderr.String())}, Calls: calls})
+						Impl: []string{firstLine(stderr.String())}, Model: []string{lastRes}, Calls: calls})
+				} else {
+					total.Results["(crash predicted by the model)"]++
 				}
 				mu.Unlock()
 				from = lastJ + 1
@@ -568,15 +601,19 @@ func firstLine(s string) string {
 
 // driverTriggers runs a (partial) driver input through the model and returns every trigger
 // that fired.
-func driverTriggers(driver string, input []byte) []string {
+func driverTriggers(driver string, input []byte) ([]string, string) {
 	cmd := exec.Command(driver)
 	cmd.Stdin = bytes.NewReader(input)
 	out, err := cmd.Output()
 	if err != nil {
-		return nil
+		return nil, ""
 	}
 	fired := []string{}
+	lastRes := ""
 	for _, l := range strings.Split(string(out), "\n") {
+		if strings.HasPrefix(l, "res\t") {
+			lastRes = l
+		}
 		if strings.HasPrefix(l, "trig\t") {
 			for _, t := range strings.Split(strings.TrimPrefix(l, "trig\t"), "\t") {
 				if !has(fired, t) {
@@ -585,7 +622,7 @@ func driverTriggers(driver string, input []byte) []string {
 			}
 		}
 	}
-	return fired
+	return fired, lastRes
 }
 
 func mergeResult(t, r *result) {
